@@ -47,8 +47,6 @@ def witnesses : List (String × Option (List Nat)) :=
     ("rio_lang", witnessP okIncl rioLang Gen.LANG_TAG),
     ("jsonld_bnode", witnessP okIncl jsonldBnode Gen.BNODE_ID),
     ("base", witnessP okIncl Gen.IRI_REGEX Oxiri.abs),
-    ("oxiri_abs_lower", witnessP okIncl Oxiri.absLower Gen.IRI_REGEX),
-    ("oxiri_ref_lower", witnessP okIncl Oxiri.refLower Gen.IRI_REF_REGEX),
     ("xml_nodeid_nodot", witnessP okIncl xmlNodeIdNoTrailingDot Gen.BNODE_ID),
     ("oxiri_abs", witnessP okIncl Oxiri.abs Gen.IRI_REGEX),
     ("oxiri_ref", witnessP okIncl Oxiri.ref Gen.IRI_REF_REGEX),
